@@ -1,5 +1,7 @@
 pub mod atomics;
 pub mod builder;
+pub mod lenders;
+pub mod sigstore;
 
 /// Dispatch a generic function over the world named `$name`.
 #[macro_export]
@@ -7,6 +9,8 @@ macro_rules! with_world {
     ($name:expr, $f:ident ( $($arg:expr),* )) => {
         match $name {
             "atomics" => $f::<$crate::worlds::atomics::AtomicsWorld>($($arg),*),
+            "lenders" => $f::<$crate::worlds::lenders::LendersWorld>($($arg),*),
+            "sigstore" => $f::<$crate::worlds::sigstore::SigstoreWorld>($($arg),*),
             "builder" => $f::<$crate::worlds::builder::BuilderWorld>($($arg),*),
             other => panic!("unknown world {other}"),
         }
